@@ -69,8 +69,9 @@ class Random(IO):
         "extra_chunks",
         "args",
         "kwargs",
+        "_seeds",
     ]
-    _defaults = {"extra_chunks": ()}
+    _defaults = {"extra_chunks": (), "_seeds": None}
     _is_blockwise_fusable = True
 
     @cached_property
@@ -93,28 +94,42 @@ class Random(IO):
     def chunks(self):
         return self._base_chunks + self.extra_chunks
 
+    def _derive_seeds(self, n):
+        """Per-block seeds for this array, drawn from the generator exactly once.
+
+        Drawing advances the generator (so the next array differs), which means
+        it must happen only when the user creates the array.  The optimizer
+        re-instantiates nodes whose children it rewrote (array-valued
+        parameters); those copies receive the seeds through the ``_seeds``
+        operand instead of drawing again, so every rewrite of this array is
+        the same realization.
+        """
+        seeds = self.operand("_seeds")
+        if seeds is None:
+            if isinstance(self.rng, Generator):
+                seeds = [b._seed_seq for b in _spawn_bitgens(self.rng._bit_generator, n)]
+            else:
+                # Ship a compact per-block seed instead of the full 2.6 KB MT19937
+                # state array. Derive a 128-bit entropy for every block from the
+                # root RNG via one SeedSequence — deterministic from the root, so
+                # recompute is stable and da.random.seed still controls it — and let
+                # the worker rebuild the state (see _apply_random).
+                root_entropy = int.from_bytes(self.rng._numpy_state.bytes(16), "little")
+                words = np.random.SeedSequence(root_entropy).generate_state(n * 4, dtype=np.uint32).reshape(n, 4)
+                seeds = [int.from_bytes(w.tobytes(), "little") for w in words]
+            self.operands[self._parameters.index("_seeds")] = seeds
+        return seeds
+
     @cached_property
     def _info(self):
         sizes = list(product(*self._base_chunks))
         if isinstance(self.rng, Generator):
-            bitgens = _spawn_bitgens(self.rng._bit_generator, len(sizes))
-            bitgen_token = tokenize(bitgens)
-            bitgens = [_bitgen._seed_seq for _bitgen in bitgens]
+            bitgens = self._derive_seeds(len(sizes))
+            bitgen_token = tokenize([type(self.rng._bit_generator)(seed) for seed in bitgens])
             func_applier = _apply_random_func
             gen = type(self.rng._bit_generator)
         elif isinstance(self.rng, RandomState):
-            # Ship a compact per-block seed instead of the full 2.6 KB MT19937
-            # state array. Derive a 128-bit entropy for every block from the
-            # root RNG via one SeedSequence — deterministic from the root, so
-            # recompute is stable and da.random.seed still controls it — and let
-            # the worker rebuild the state (see _apply_random).
-            root_entropy = int.from_bytes(self.rng._numpy_state.bytes(16), "little")
-            words = (
-                np.random.SeedSequence(root_entropy)
-                .generate_state(len(sizes) * 4, dtype=np.uint32)
-                .reshape(len(sizes), 4)
-            )
-            bitgens = [int.from_bytes(w.tobytes(), "little") for w in words]
+            bitgens = self._derive_seeds(len(sizes))
             bitgen_token = tokenize(bitgens)
             func_applier = _apply_random
             gen = self.rng._RandomState
@@ -257,8 +272,8 @@ class Random(IO):
 class RandomNormal(Random):
     """Normal distribution with explicit loc and scale parameters."""
 
-    _parameters = ["rng", "size", "chunks", "extra_chunks", "loc", "scale"]
-    _defaults = {"extra_chunks": (), "loc": 0.0, "scale": 1.0}
+    _parameters = ["rng", "size", "chunks", "extra_chunks", "loc", "scale", "_seeds"]
+    _defaults = {"extra_chunks": (), "loc": 0.0, "scale": 1.0, "_seeds": None}
     distribution = "normal"
 
     @property
@@ -273,8 +288,8 @@ class RandomNormal(Random):
 class RandomPoisson(Random):
     """Poisson distribution with explicit lam parameter."""
 
-    _parameters = ["rng", "size", "chunks", "extra_chunks", "lam"]
-    _defaults = {"extra_chunks": (), "lam": 1.0}
+    _parameters = ["rng", "size", "chunks", "extra_chunks", "lam", "_seeds"]
+    _defaults = {"extra_chunks": (), "lam": 1.0, "_seeds": None}
     distribution = "poisson"
 
     @property
